@@ -15,7 +15,7 @@ def check(tier, seed, replay=None):
     run = Run("C05", tier, seed)
     run.cov["rule"] = ("(a) every cover value: DecodeBebop of each of the three encodings followed by 3 sentinel bytes, under 3 read schedules, must consume exactly Size() bytes; "
                        "(b) histories: 1-5 records of mixed cover types written back to back with EncodeBebop, decoded in order from ONE reader under several "
-                       "chunk schedules (all at once, one byte at a time, alternating 1/3, random); observables: the reader position after each record and the decoded sequence; "
+                       "chunk schedules (all at once, one byte at a time, alternating 1/3, random) and from the standard library's readers (bytes.Reader, bytes.Buffer, strings.Reader, a 16-byte bufio.Reader over the chunking reader); observables: the reader position after each record and the decoded sequence; "
                        "compared with the extracted model's sdec and with the values that were written")
     run.cov["trusted_base"] = wire.WIRE_TRUSTED
     broken = None
@@ -58,9 +58,14 @@ def check(tier, seed, replay=None):
             seq = [enc[rng.below(len(enc))] for _ in range(k)]
             hexs = "".join(e for _, _, e in seq if e != "-") or "-"
             total = wire.hexlen(hexs)
-            for sch in schedules(rng, total, tier):
+            scheds = schedules(rng, total, tier)
+            # and from the standard library's own readers (bytes.Reader, bytes.Buffer, strings.Reader, a small bufio.Reader over the chunking reader): they
+            # also implement io.ByteReader / io.WriterTo / io.RuneReader, which a decoder might be tempted to use; the model's reader has no such thing, so
+            # its answer is the same as for the plain reader
+            kinds = ["b:-", "f:-", "s:-", "u:" + scheds[-1]] if q % 2 == 0 or tier == "thorough" else ["bfsu"[q % 4] + ":" + scheds[-1 if q % 4 == 3 else 0]]
+            for sch in scheds + kinds:
                 ops_go.append("SSEQ %s %s %s" % (",".join(d.name for d, _, _ in seq), sch, hexs + "eeee"))
-                ops_mo.append("SSEQ %s %s %s" % (",".join(str(d.id) for d, _, _ in seq), sch, hexs + "eeee"))
+                ops_mo.append("SSEQ %s %s %s" % (",".join(str(d.id) for d, _, _ in seq), sch[2:] if sch[1:2] == ":" else sch, hexs + "eeee"))
                 metas.append(seq)
         b = wirerun.build_package(s, 1, "cover")
         sp = wirerun.write_model_schema(s, "c05")
